@@ -276,3 +276,26 @@ func SortedKeys[V any](m map[string]V) []string {
 	sort.Strings(ks)
 	return ks
 }
+
+// Conclude is the standard end of a simulated run: it maps the stop reason to
+// inconclusive / harness trouble (a world whose property *is* about deadlock
+// or panics handles those before calling Conclude), reports panics that
+// reached a task boundary as harness trouble unless allowPanics, drains the
+// remaining tasks and absorbs the counters.
+func (e *Env) Conclude(s *Sim, reason StopReason, allowPanics bool) {
+	switch reason {
+	case StopBudget:
+		e.Inconclusive("step budget exhausted after %d steps", s.Steps)
+	case StopDeadlock:
+		if !e.Violated() {
+			e.Harness("world deadlocked: %s", s.Stuck())
+		}
+	}
+	if !allowPanics {
+		for _, t := range s.Panicked() {
+			e.Harness("task %s panicked: %v\n%s", t.Name, t.Panic, t.PanicStack)
+		}
+	}
+	s.Drain(5000)
+	e.Absorb(s)
+}
